@@ -310,7 +310,8 @@ class _STIXBase(collections.abc.Mapping):
         )
 
     def __setattr__(self, name, value):
-        if not name.startswith("_"):
+        if not name.startswith("_") or \
+                name in self.__dict__.get("_inner", ()):
             raise ImmutableError(self.__class__, name)
         super(_STIXBase, self).__setattr__(name, value)
 
